@@ -228,6 +228,7 @@ pub struct Outcome {
     pub unpark_wakes: u32,
     pub spurious_unparks: u32,
     pub moved_unpin: u32,
+    pub stream_handed_over: u32,
     pub final_time: u64,
     pub panics: Vec<(u8, String)>,
     pub livelock: Option<u8>,
@@ -271,6 +272,7 @@ struct Inner {
     unpark_wakes: u32,
     spurious_unparks: u32,
     moved_unpin: u32,
+    stream_handed_over: u32,
     panics: Vec<(u8, String)>,
     livelock: Option<u8>,
     cross_checked: u32,
@@ -348,6 +350,7 @@ impl Inner {
             unpark_wakes: 0,
             spurious_unparks: 0,
             moved_unpin: 0,
+            stream_handed_over: 0,
             panics: Vec::new(),
             livelock: None,
             cross_checked: 0,
@@ -1179,6 +1182,11 @@ pub fn retire_within(addr: usize, len: usize) {
     g.retired.extend(moved);
 }
 
+/// Classification: a stream wait that starts with a fresh waker (stream handed to another task).
+pub fn count_stream_handed_over() {
+    lock(rt()).stream_handed_over += 1;
+}
+
 /// Classification: the harness moved an `Unpin` future / stream between two polls.
 pub fn count_moved() {
     lock(rt()).moved_unpin += 1;
@@ -1376,6 +1384,7 @@ pub fn run(cfg: Config, bodies: Vec<Job>) -> Outcome {
         unpark_wakes: g.unpark_wakes,
         spurious_unparks: g.spurious_unparks,
         moved_unpin: g.moved_unpin,
+        stream_handed_over: g.stream_handed_over,
         final_time: g.now,
         panics: std::mem::take(&mut g.panics),
         livelock: g.livelock,
